@@ -103,7 +103,9 @@ def gen_cases(rng, tier):
                       'mutate_after': rng.chance(0.3), 'via_env': rng.chance(0.25),
                       # missing-value tokens declared by the resources' schemas: nulls must come back as nulls, and an empty
                       # string stays an empty string when '' is not among the tokens
-                      'mv': rng.pick([None, None, ['n/a'], ['', 'NA'], ['-', 'n/a']])})
+                      'mv': rng.pick([None, None, ['n/a'], ['', 'NA'], ['-', 'n/a']]),
+                      # rows reach the dumper with their keys in another order than the schema lists the fields
+                      'keyorder': rng.pick([None, None, 'rotate', 'reverse'])})
     # systematically: strings with blanks, tabs and line breaks at their ends, through every way of writing and reading back
     pad_rows = [{'alpha': ' pad ', 'beta': '\ttab'}, {'alpha': 'x\n', 'beta': '   '}, {'alpha': 'plain', 'beta': None}]
     for fmt in ('csv', 'json'):
@@ -111,11 +113,25 @@ def gen_cases(rng, tier):
             cases.append({'kind': 'roundtrip', 'pkg': [{'name': 'res0', 'fields': [['alpha', 'string'], ['beta', 'string']], 'rows': rows_enc(pad_rows)}],
                           'format': fmt, 'zip': z, 'hashpath': False, 'tfp': False, 'tfp_fields': [], 'fprops': [], 'mutate_after': False, 'via_env': env})
     for fmt in ('csv', 'json'):
+        for ko in ('rotate', 'reverse'):
+            for z in (False, True):
+                rows_ = [{'alpha': 1, 'beta': 'x', 'gamma': 'u'}, {'alpha': 2, 'beta': 'y', 'gamma': 'v'}]
+                cases.append({'kind': 'roundtrip', 'pkg': [{'name': 'res0', 'fields': [['alpha', 'integer'], ['beta', 'string'], ['gamma', 'string']], 'rows': rows_enc(rows_)}],
+                              'format': fmt, 'zip': z, 'hashpath': False, 'tfp': False, 'tfp_fields': [], 'fprops': [], 'mutate_after': False,
+                              'via_env': False, 'keyorder': ko})
+    for fmt in ('csv', 'json'):
         for mv in (['n/a'], ['-', 'n/a'], ['', 'NA']):
             rows_ = [{'alpha': 1, 'beta': 'x'}, {'alpha': None, 'beta': None}, {'alpha': 3, 'beta': ''}]
             cases.append({'kind': 'roundtrip', 'pkg': [{'name': 'res0', 'fields': [['alpha', 'integer'], ['beta', 'string']], 'rows': rows_enc(rows_)}],
                           'format': fmt, 'zip': False, 'hashpath': False, 'tfp': False, 'tfp_fields': [], 'fprops': [], 'mutate_after': False,
                           'via_env': False, 'mv': mv})
+    # histories of dumps into one directory: successful and failing runs of different data in any order; whenever a run
+    # succeeds, the package in the directory loads back as what that run dumped (round 8)
+    hist = [[a, b, c] for a in ('A', 'B', 'Bfail') for b in ('A', 'B', 'Afail', 'Bfail') for c in ('A', 'B')]
+    if tier == 'quick':
+        hist = [h for h in hist if rng.chance(0.5) or h == ['A', 'Bfail', 'A']]
+    for h in hist:
+        cases.append({'kind': 'samedir', 'history': h, 'format': 'csv', 'hashpath': rng.chance(0.2)})
     # the CSV layer alone: the model of Python's csv against the csv module, on tables and on arbitrary texts
     alpha = ['a', 'b', ',', '"', '\r', '\n', ' ', 'é']
     for i in range({'quick': 60, 'thorough': 600, 'search': 100}[tier]):
@@ -161,9 +177,48 @@ def run_csv(case):
     return out
 
 
+SAMEDIR_DATA = {'A': [{'id': 1, 'amount': decimal.Decimal('10.50'), 'who': 'ada'}, {'id': 2, 'amount': decimal.Decimal('-3.25'), 'who': 'bob'}],
+                'B': [{'id': 1, 'amount': decimal.Decimal('99.99'), 'who': 'ada'}, {'id': 2, 'amount': decimal.Decimal('-0.01'), 'who': 'eve'}]}
+
+
+def run_samedir(case):
+    base = os.path.join(scratch(), 'c3h_%s' % digest(case))
+    shutil.rmtree(base, ignore_errors=True)
+    steps = []
+    try:
+        for h in case['history']:
+            fail = h.endswith('fail')
+            data = SAMEDIR_DATA[h[0]]
+            res = [{'name': 'ledger', 'fields': [{'name': 'id', 'type': 'integer'}, {'name': 'amount', 'type': 'number'}, {'name': 'who', 'type': 'string'}],
+                    'rows': copy.deepcopy(data)},
+                   # the second resource of a failing run holds a value that is not of its declared type: the dumper rejects
+                   # it after the first resource's file has been written
+                   {'name': 'notes', 'fields': [{'name': 'n', 'type': 'integer'}], 'rows': [{'n': 1}, {'n': 'oops' if fail else 2}]}]
+            try:
+                with quiet():
+                    Flow(Src(res), DF.dump_to_path(base, format=case['format'], add_filehash_to_path=case['hashpath'])).process()
+                ok = True
+            except Exception as e:
+                ok = False
+            st = {'ok': ok, 'fail_wanted': fail}
+            if ok:
+                try:
+                    with quiet():
+                        rows, dp, _ = Flow(DF.load(os.path.join(base, 'datapackage.json'))).results()
+                    st['loaded'] = rows_enc(rows[0])
+                except Exception as e:
+                    st['load_error'] = '%s: %s' % (type(e).__name__, str(e)[:200])
+            steps.append(st)
+        return {'steps': steps}
+    finally:
+        shutil.rmtree(base, ignore_errors=True)
+
+
 def run_impl(case):
     if case['kind'] in ('csvlayer', 'csvtext'):
         return run_csv(case)
+    if case['kind'] == 'samedir':
+        return run_samedir(case)
     base = os.path.join(scratch(), 'c3_%s' % digest(case))
     shutil.rmtree(base, ignore_errors=True)
     os.makedirs(base)
@@ -186,7 +241,8 @@ def run_impl(case):
     out = {}
     try:
         with quiet():
-            Flow(Src(res), DF.dump_to_zip(target, **kw) if case['zip'] else DF.dump_to_path(target, **kw),
+            Flow(Src(res), *({'rotate': [rotate_keys], 'reverse': [reverse_keys]}.get(case.get('keyorder'), [])),
+                 DF.dump_to_zip(target, **kw) if case['zip'] else DF.dump_to_path(target, **kw),
                  *([_mutate] if case.get('mutate_after') else [])).process()
         files = {}
         if case['zip']:
@@ -309,6 +365,19 @@ def oracle(case, out):
         if out.get('read') != case['recs']:
             return 'csv module: wrote %r, read back %r' % (case['recs'], out.get('read', out.get('read_error')))
         return None
+    if case['kind'] == 'samedir':
+        for i, (h, st) in enumerate(zip(case['history'], out['steps'])):
+            if st['ok'] == st['fail_wanted']:
+                return 'history %r: run %d %s' % (case['history'], i + 1, 'succeeded with an invalid value' if st['ok'] else 'failed on valid data')
+            if st['ok']:
+                if 'load_error' in st:
+                    return 'history %r into one directory: the package of run %d does not load: %s' % (case['history'], i + 1, st['load_error'])
+                want = SAMEDIR_DATA[h[0]]
+                got = rows_dec(st['loaded'])
+                if len(got) != len(want) or any(not all(same_value(g.get(k), w[k]) for k in w) for g, w in zip(got, want)):
+                    return 'history %r into one directory: after run %d the package loads back as %r, that run dumped %r' % (
+                        case['history'], i + 1, got, want)
+        return None
     if 'dump_error' in out:
         return 'dump failed: %s' % out['dump_error']
     p = independent_decode(case, out)
@@ -361,6 +430,8 @@ def finding(case, out, failure):
 
 
 def coq_term(case, out):
+    if case['kind'] == 'samedir':
+        return None
     if case['kind'] in ('csvlayer', 'csvtext'):
         rd = ('match read_csv %s with Ok r => list_eqb (list_eqb str_eqb) r %s | Err _ => false end' % (cstr(out['text']), clist([cstrs(r) for r in out['read']]))
               if 'read' in out else 'match read_csv %s with Ok _ => false | Err _ => true end' % cstr(out['text']))
